@@ -69,11 +69,13 @@ def run_one(tape, opts):
     clock = vclock.VClock()
     vclock.install(clock)
     world = World()
-    observers = []     # (name, kind, obj/None, taggers)
-    kept_dicts = []
     k = top[0]
-    tagger_top = []
-    try:
+
+    def construct(world):
+      observers = []     # (name, kind, obj/None, taggers)
+      kept_dicts = []
+      tagger_top = []
+      if True:
         if k == "TestResult":
             result = TestResult()
         elif k == "TextTestResult":
@@ -114,6 +116,16 @@ def run_one(tape, opts):
                     spec = spec[3]
                 else:
                     spec = spec[1]
+      return result, observers, kept_dicts, tagger_top
+
+    try:
+        result, observers, kept_dicts, tagger_top = construct(world)
+        # a second pipeline of the same shape, alive at the same time and fed between the main one's calls:
+        # its tags are none of the main one's business
+        decoy = None
+        if tape.chance("config", 1, 3, "decoy-pipeline"):
+            decoy = pl.Decoy(lambda w, b: construct(w)[0],
+                             [c for c in pl.DECOY_HISTORY if not (k == "TestByTestResult" and c[0] == "time")])
     except Exception:
         vclock.uninstall()
         raise
@@ -146,6 +158,8 @@ def run_one(tape, opts):
                 break
             if c is None:
                 break
+            if decoy is not None:
+                decoy.step()
             model.apply(c)
             top_model.apply(c)
             if c[0] == "startTest":
@@ -174,6 +188,9 @@ def run_one(tape, opts):
                             f"{top}: current_tags {sorted(cur)} after {c}, model {sorted(top_model.current)}; history so far {hist[:rep.i]}")
                 aborted = True
                 break
+        if decoy is not None:
+            decoy.finish(out, top)
+            out.probe("decoy-pipeline" if decoy.reference is not None else "decoy-pipeline-not-applicable")
     finally:
         vclock.uninstall()
     if rep.mutated_args:
